@@ -197,6 +197,9 @@ func GenGrammarStage(t *rapid.T) gen.Stage {
 		}
 		return st
 	case 7:
+		if rapid.Bool().Draw(t, "gs-built-regexp") {
+			return gen.Stage{Kind: "regexp", Regex: GenExtractRegexp(t, []string{"a", "ip", "user", "x_1", "level", "val"}, "gs-regexp")}
+		}
 		return gen.Stage{Kind: "regexp", Regex: rapid.SampledFrom([]string{`(?P<a>\w+)`, `^(?P<ip>\S+) (?P<user>\S+)`, `(?P<x_1>.*)`, `no captures`, `(?P<level>err|warn)(\d+)`}).Draw(t, "gs-regexp")}
 	case 8:
 		return gen.Stage{Kind: "pattern", Pattern: rapid.SampledFrom([]string{"<a> <b>", "<_> - <user> [<ts>]", "<ip>", "literal <x> tail"}).Draw(t, "gs-pattern")}
